@@ -31,6 +31,7 @@ TRUSTED = [
     "oracle hypothesis of the no-launder theorems, stated in them: analysing the text bash_join ws yields the ladder's verdict on the re-read words (map reread ws); ';'-joined texts are judged as the most restrictive clause",
     "extraction: ExtrOcamlBasic only; OCaml 4.13.1; ocaml/driver.ml; cross-checked in Coq by vm_compute on a sample",
     "modelled, not verified: the vendored parser; the decision ladder itself is Model/Ladder.v (another package) and an oracle here",
+    "round-2 launcher forms (harness/laddergen.py launchers/option_forms): 'the launcher's own option parsing ends at the inner command's name' (POSIX option order of env, xargs, timeout, nice, nohup, strace; docker exec stops at the container; kubectl after --; find -exec up to ;) - the same grammar the validated WrapSpec.v specs state; a sample of these forms is in the real-bash stream above",
     "ground-truth harness: stub executables + real bash 5.2.15, coreutils 9.1, findutils 4.9.0, dash, strace, docker client 29.x with a recording fake daemon (harness/c04_truth.py)",
 ]
 
@@ -159,7 +160,7 @@ def run(tier, seed, replay=None):
         # ------------------------------------------------------------------ cases
         cases = []
         if replay is None:
-            cases += g.odd_cases(tier) + g.getopt_cases(tier) + g.env_split_cases(tier) + g.find_cases(tier) + g.shell_cases(tier)
+            cases += g.odd_cases(tier) + g.inner_flag_cases(tier) + g.getopt_cases(tier) + g.env_split_cases(tier) + g.find_cases(tier) + g.shell_cases(tier)
             cases += g.docker_cases(tier, "docker") + g.docker_cases("quick", "podman")[:400] + g.kubectl_cases(tier) + g.fd_cases(tier)
             cases += g.other_launcher_cases(tier)
         elif replay.get("case"):
@@ -356,8 +357,19 @@ def run(tier, seed, replay=None):
         "wrappers} x trailing -h/--help/--version/help; every such command is run under real bash with stub executables (docker: real client, "
         "fake daemon) and the verdict compared with the ladder's verdict on each argv that really ran. quoting: all 33 ASCII metacharacters, "
         "their pairs, quotes, random ASCII/Unicode strings, and the code points str.isalnum accepts, round-tripped through real bash printf. "
-        "random: token soups for the handler-model correspondence. distinct = distinct command texts / token lists; non-trivial = a wrapper "
-        "with an inner command, or a string that needs quoting")
+        "random: token soups for the handler-model correspondence. "
+        "ROUND 2 (harness/c04_ladder.py, generators harness/laddergen.py, run in forked worker processes): (L) Ladder.ladder == "
+        "_analyze_simple_command on EXHAUSTIVE token lists: [wrapper] + alphabet^k for every ladder wrapper, alphabets drawn from the wrapper "
+        "tables of the tree united with a snapshot (every flag with argument, cluster / attached / =-joined / abbreviated / long-ending-in-a-short-letter "
+        "spellings, --, -, -v, -V, -p, near misses, assignments and non-assignments, operands, commands of every verdict class, help tokens, "
+        "nested wrappers): core^<=3, tiny^4, every full-alphabet token at every position of a short list, every list behind outer contexts "
+        "(assignment, wrapper, env); non-wrapper heads x help-token tails with the 4-word boundary; Ladder.is_help == _is_version_or_help on all "
+        "lists <= 5 over its literals + near misses; Wrappers.v classify == handler.classify() on exhaustive lists over each handler's own alphabet. "
+        "(M) model-free: verdict(<form> CMD ARGS) == verdict(CMD ARGS) for the plain forms (words and shell text, also two forms nested), >= for "
+        "every valid option spelling of every wrapper, 24 two-level nestings and every launcher form (env xargs sh find fd docker podman kubectl uv "
+        "arch caffeinate script), where ARGS puts every token the wrapper itself understands as 1st / 2nd / 3rd argument of the inner command, and "
+        "inner commands followed by help/version-looking tokens. "
+        "distinct = distinct command texts / token lists; non-trivial = a wrapper with an inner command, or a string that needs quoting")
     return out
 
 
